@@ -50,6 +50,10 @@ def frame_keys_allowed(c: Contract) -> set[str]:
 
 def generate(repo: Repo, reg: Registry, c: Contract) -> tuple[list[VC], Verifier, St]:
     """All VCs of one function (or lemma) against its contract."""
+    from pyvc import engine as _E
+
+    _E._fresh.reset()
+    _E._fresh_log.clear()
     eng = Verifier(repo, reg)
     eng.raised = []
     eng.cur_contract = c
@@ -276,19 +280,24 @@ def discharge(vc: VC, timeout_ms: int = 10000, retry: bool = True) -> Discharged
         return Discharged(vc, "violated", "z3", ms, s.model())
     if vc.canary or not retry:
         return Discharged(vc, "undecided", "z3", ms, None, s.reason_unknown())
-    # retry with a different configuration before giving up
-    s2 = z3.SolverFor("AUFLIA") if False else z3.Solver()
-    s2.set("timeout", timeout_ms * 4)
-    s2.set("smt.mbqi", False) if False else None
-    s2.add(*s.assertions())
-    t0 = time.time()
-    r2 = s2.check()
-    ms += (time.time() - t0) * 1000
-    if r2 == z3.unsat:
-        return Discharged(vc, "held", "z3(retry)", ms)
-    if r2 == z3.sat:
-        return Discharged(vc, "violated", "z3(retry)", ms, s2.model())
-    return Discharged(vc, "undecided", "z3", ms, None, s.reason_unknown())
+    # The solver's run time on one and the same formula varies by orders of magnitude between processes (internal tables are
+    # ordered by addresses), and inside one process a repetition takes the same unlucky path again.  So the retries restart
+    # with different random seeds: three at the plain budget, then one at four times the budget.
+    reason = s.reason_unknown()
+    for seed, factor in ((1, 1), (2, 1), (3, 1), (4, 4)):
+        s2 = z3.Solver()
+        s2.set("timeout", timeout_ms * factor)
+        s2.set("random_seed", seed)
+        s2.set("smt.random_seed", seed)
+        s2.add(*s.assertions())
+        t0 = time.time()
+        r2 = s2.check()
+        ms += (time.time() - t0) * 1000
+        if r2 == z3.unsat:
+            return Discharged(vc, "held", f"z3(restart, seed {seed})", ms)
+        if r2 == z3.sat:
+            return Discharged(vc, "violated", f"z3(restart, seed {seed})", ms, s2.model())
+    return Discharged(vc, "undecided", "z3", ms, None, reason)
 
 
 def verify_contract(repo: Repo, reg: Registry, c: Contract, timeout_ms: int = 10000):
